@@ -5,6 +5,7 @@ required/unique checks, `parseVersionList`, and `merge` of a library into a copy
 -/
 import HedVerif.Model.Group
 import HedVerif.Props.C03
+import HedVerif.Model.GroupValidate
 
 namespace HedVerif.Group
 open HedVerif.Schema
@@ -779,5 +780,231 @@ example :
       = some [([], ['8', ',', 'b']), (['s'], ['s', ':', 'a', ',', 'c'])] ∧
     (parseVersionList [['s', ':', 'a'], ['b'], ['s', ':', 'a']]).toOption = none := by
   decide
+
+/-! ## the name-keyed sections -/
+
+theorem addAll_prefix (fc : Char → Char) (es acc : List SEntry) (d : List Str) :
+    (∃ x, (addAll fc es acc d).1 = acc ++ x) ∧ (∀ n ∈ d, n ∈ (addAll fc es acc d).2) := by
+  induction es generalizing acc d with
+  | nil => exact ⟨⟨[], by simp [addAll]⟩, fun n hn => by simpa [addAll] using hn⟩
+  | cons e es ih =>
+    simp only [addAll]
+    split
+    · obtain ⟨h1, h2⟩ := ih acc (d ++ [e.name])
+      exact ⟨h1, fun n hn => h2 n (List.mem_append_left _ hn)⟩
+    · obtain ⟨⟨x, hx⟩, h2⟩ := ih (acc ++ [e]) d
+      exact ⟨⟨[e] ++ x, by rw [hx]; simp⟩, h2⟩
+
+theorem addAll_flags (fc : Char → Char) (es acc : List SEntry) (d : List Str) (e : SEntry) (he : e ∈ es)
+    (hk : acc.any (fun x => sameKey fc x.name e.name) = true) : (addAll fc es acc d).2 ≠ [] := by
+  induction es generalizing acc d with
+  | nil => cases he
+  | cons f es ih =>
+    simp only [addAll]
+    rcases List.mem_cons.mp he with h | h
+    · subst h
+      rw [if_pos hk]
+      intro hnil
+      have := (addAll_prefix fc es acc (d ++ [e.name])).2 e.name (by simp)
+      rw [hnil] at this; cases this
+    · split
+      · exact ih acc _ h hk
+      · apply ih (acc ++ [f]) d h
+        simp only [List.any_append, hk, Bool.true_or]
+
+theorem addAll_kept (fc : Char → Char) (es acc : List SEntry) (d : List Str)
+    (h : (addAll fc es acc d).2 = []) : ∀ e ∈ es, e ∈ (addAll fc es acc d).1 := by
+  induction es generalizing acc d with
+  | nil => intro e he; cases he
+  | cons f es ih =>
+    simp only [addAll] at h ⊢
+    split
+    · rename_i hk
+      rw [if_pos hk] at h
+      have := (addAll_prefix fc es acc (d ++ [f.name])).2 f.name (by simp)
+      rw [h] at this; cases this
+    · rename_i hk
+      rw [if_neg hk] at h
+      intro e he
+      rcases List.mem_cons.mp he with he | he
+      · subst he
+        obtain ⟨x, hx⟩ := (addAll_prefix fc es (acc ++ [e]) d).1
+        rw [hx]; simp
+      · exact ih _ _ h e he
+
+/-- **Sections merge conservatively.** If a library's section merges into the partner's, the partner's
+entries stay first and unchanged, every name the partner knows is looked up to the same entry (same
+attributes), and every entry the library offers is present with its own attributes. -/
+theorem section_conservative (fc : Char → Char) (base lib m : List SEntry) (am : Bool)
+    (h : mergeSection fc base lib am = .ok m) :
+    (∃ added, m = base ++ added) ∧
+    (∀ n e, sectionGet fc base n = some e → sectionGet fc m n = some e) ∧
+    (∀ e ∈ offered lib am, e ∈ m) := by
+  simp only [mergeSection] at h
+  split at h
+  · rename_i hd
+    injection h with h
+    subst h
+    obtain ⟨x, hx⟩ := (addAll_prefix fc (offered lib am) base []).1
+    refine ⟨⟨x, hx⟩, ?_, addAll_kept fc _ _ _ (by simpa using hd)⟩
+    intro n e hn
+    rw [hx]
+    unfold sectionGet at hn ⊢
+    rw [List.find?_append, hn]; rfl
+  · cases h
+
+/-- **A shared name in a section is refused**: a unit class, unit, unit modifier, value class, attribute or
+property the library offers under a name the partner (or an earlier library) already has. -/
+theorem section_refuse_shared (fc : Char → Char) (base lib : List SEntry) (am : Bool) (b l : SEntry)
+    (hb : b ∈ base) (hl : l ∈ offered lib am) (hsame : sameKey fc b.name l.name = true) :
+    ∃ d, mergeSection fc base lib am = .error d ∧ d ≠ [] := by
+  have hk : base.any (fun x => sameKey fc x.name l.name) = true := List.any_eq_true.mpr ⟨b, hb, hsame⟩
+  have := addAll_flags fc (offered lib am) base [] l hl hk
+  simp only [mergeSection]
+  split
+  · rename_i hd; exact absurd (by simpa using hd) this
+  · exact ⟨_, rfl, this⟩
+
+/-! ## validation against a group (on the string-validator model of C01) -/
+
+section GroupValidate
+open HedVerif.Validate HedVerif.GroupValidate
+
+theorem member_self_ns (g : VGroup) (p : Str) (m : VMember) (h : member g p = some m) : m.env.ns = p := by
+  have := List.find?_some h
+  simpa using this
+
+/-- **Per-tag dispatch = the member's own lookup.** For a tag whose namespace is `m`'s prefix, or is not
+loaded at all, looking the tag up through the group gives exactly what the single-schema lookup of the
+string-validator model gives in `m`'s environment (same entry, same remainder, same issues). -/
+theorem canonG_eq_view (g : VGroup) (m : VMember) (t : RTag)
+    (hm : member g m.env.ns = some m) (ht : t.ns = m.env.ns ∨ member g t.ns = none) :
+    canonG g t = canon (view g m) t := by
+  have hview : canon (view g m) t = canon m.env t := rfl
+  rw [hview]
+  unfold canonG
+  rcases ht with h | h
+  · rw [h, hm]
+  · have hne : t.ns ≠ m.env.ns := by
+      intro e; rw [e, hm] at h; cases h
+    have : (t.ns != m.env.ns) = true := by simpa using hne
+    simp [h, canon, this]
+
+/-- **A tag with a prefix that is not loaded gets exactly TAG_NAMESPACE_PREFIX_INVALID** (one issue, an
+error, on that tag) from the lookup, whatever the members are. -/
+theorem unloaded_prefix_invalid (g : VGroup) (t : RTag) (h : member g t.ns = none) :
+    (canonG g t).2 = [tagIssue .libraryUnmatched t] ∧
+    (tagIssue .libraryUnmatched t).code = Generated.CodeMap.code_TAG_NAMESPACE_PREFIX_INVALID ∧
+    (tagIssue .libraryUnmatched t).isError = true ∧ (canonG g t).1.entry = none := by
+  unfold canonG
+  simp only [h]
+  refine ⟨trivial, ?_, ?_, trivial⟩
+  · show Kind.code .libraryUnmatched = _
+    decide
+  · show decide (Kind.sev .libraryUnmatched < Generated.CodeMap.sevWarning) = true
+    decide
+
+/-- mixed annotations at the lookup level: the lookup issues are the per-tag union -/
+theorem lookup_issues_per_tag (g : VGroup) (ts us : List RTag) :
+    (ts ++ us).flatMap (fun t => (canonG g t).2) =
+      ts.flatMap (fun t => (canonG g t).2) ++ us.flatMap (fun t => (canonG g t).2) := by
+  simp
+
+theorem namesWith_prefix (env : Env) (sel : TagAttr → Bool) (n : Str) (h : n ∈ namesWith env sel) :
+    ∃ r, n = env.ns ++ r := by
+  simp only [namesWith, List.mem_filterMap] at h
+  obtain ⟨i, _, hi⟩ := h
+  split at hi
+  · injection hi with hi; exact ⟨_, hi.symm⟩
+  · cases hi
+
+/-- **`group_validate_eq_single`.** An annotation speaking `m`'s prefix is judged by the group exactly as by
+`m`'s schema alone — the complete issue list — provided (1) the group's character-rule flag is the member's
+(`generation_counterexample`: a group mixing a ≥ 8.3.0 and an older member violates this), (2) no other member
+has `required` tags (`required_union_counterexample`), (3) no other member's `unique` name counts two tags of
+the annotation (`countPrefix_zero_of_separated`: impossible for alphabetic prefixes that differ after folding). -/
+theorem group_validate_eq_single (g : VGroup) (m : VMember) (ph : Bool) (text : Str)
+    (hmod : groupModern g = m.env.modern)
+    (hreq : otherNames g m.env.ns (·.required) = [])
+    (hsep : ∀ n ∈ otherNames g m.env.ns (·.unique),
+      countPrefix m.env (tagsList ((parse m.env text).final m.env)) n ≤ 1) :
+    validateFor g m ph text = Validate.validate m.env ph text := by
+  have hv : view g m = m.env := by unfold view; rw [hmod]
+  unfold validateFor Validate.validate validateP
+  simp only [hv]
+  split
+  · rfl
+  · have h1 : extraRequired g m.env (tagsList ((parse m.env text).final m.env)) = [] := by
+      unfold extraRequired; rw [hreq]; rfl
+    have h2 : extraUnique g m.env (tagsList ((parse m.env text).final m.env)) = [] := by
+      unfold extraUnique
+      rw [List.flatMap_eq_nil_iff]
+      intro n hn
+      have := hsep n hn
+      have hgt : ¬ (countPrefix m.env (tagsList ((parse m.env text).final m.env)) n > 1) := by omega
+      simp [hgt]
+    rw [h1, h2]; simp
+
+theorem fold_eq_foldS (s : Str) : Validate.fold s = Group.foldS Char.toLower s := rfl
+
+/-- another member's name never counts a resolved tag of prefix `a:` -/
+theorem countPrefix_zero_of_separated (env : Env) (tags : List RTag) (a b rest : Str)
+    (ha : ':' ∉ Validate.fold a) (hb : ':' ∉ Validate.fold b) (hab : Validate.fold a ≠ Validate.fold b)
+    (hres : ∀ t ∈ tags, t.entry.isSome = true ∧ t.ns = a ++ [':']) :
+    countPrefix env tags (b ++ [':'] ++ rest) = 0 := by
+  unfold countPrefix
+  rw [List.length_eq_zero_iff, List.filter_eq_nil_iff]
+  intro t ht
+  obtain ⟨he, hns⟩ := hres t ht
+  cases hent : t.entry with
+  | none => simp [hent] at he
+  | some e =>
+    intro hpre
+    apply hab
+    have e1 : Validate.fold (b ++ [':'] ++ rest) = Validate.fold b ++ ':' :: Validate.fold rest := by
+      simp [Validate.fold]
+    have e2 : Validate.fold (Validate.longTag env t) =
+        Validate.fold a ++ ':' :: Validate.fold (env.vocab.longName e ++ t.extVal) := by
+      simp [Validate.fold, Validate.longTag, hent, hns]
+    rw [e1, e2] at hpre
+    exact (Group.colon_prefix_eq _ _ _ _ hb ha hpre).symm
+
+/-- `group_validate_eq_single` with the separation discharged from the shape of the prefixes: `m` speaks
+`a:`, every other member speaks some `b:` with `fold b ≠ fold a` (what the group constructor enforces since
+1a730be), and the annotation's tags are all resolved under `a:` when the full-string checks are reached. -/
+theorem group_validate_eq_single_alpha (g : VGroup) (m : VMember) (ph : Bool) (text : Str) (a : Str)
+    (hmod : groupModern g = m.env.modern)
+    (hreq : otherNames g m.env.ns (·.required) = [])
+    (_hp : m.env.ns = a ++ [':']) (ha : ':' ∉ Validate.fold a)
+    (hoth : ∀ o ∈ g, o.env.ns ≠ m.env.ns →
+      ∃ b, o.env.ns = b ++ [':'] ∧ ':' ∉ Validate.fold b ∧ Validate.fold a ≠ Validate.fold b)
+    (hres : ∀ t ∈ tagsList ((parse m.env text).final m.env), t.entry.isSome = true ∧ t.ns = a ++ [':']) :
+    validateFor g m ph text = Validate.validate m.env ph text := by
+  apply group_validate_eq_single g m ph text hmod hreq
+  intro n hn
+  simp only [otherNames, List.mem_flatMap, List.mem_filter, bne_iff_ne, ne_eq] at hn
+  obtain ⟨o, ⟨hog, hne⟩, hno⟩ := hn
+  obtain ⟨b, hb, hbc, hab⟩ := hoth o hog hne
+  obtain ⟨r, hr⟩ := namesWith_prefix o.env _ n hno
+  rw [hr, hb, countPrefix_zero_of_separated m.env _ a b r ha hbc hab hres]
+  omega
+
+/-- the character rules are one flag for the whole string: a group of an 8.3.0 standard schema and a library
+partnered with 8.2.0 uses the 8.3.0 rules also for the library's tags — `é` is accepted in the group and
+refused by the library alone (finding C13-mixed-generation-char-rules) -/
+theorem generation_counterexample :
+    ∃ (g : VGroup) (m : VMember), member g m.env.ns = some m ∧ aloneModern m = m.env.modern ∧
+      groupModern g ≠ m.env.modern ∧
+      charIssues (view g m) false ['s', ':', 'L', '/', 'é'] = [] ∧
+      charIssues m.env false ['s', ':', 'L', '/', 'é'] ≠ [] :=
+  ⟨[⟨{ vocab := Vocab.build id [], ns := [], attrs := #[], mods := [], unitClasses := #[], modern := true, cd := {} },
+      none, some true, true⟩,
+    ⟨{ vocab := Vocab.build id [], ns := ['s', ':'], attrs := #[], mods := [], unitClasses := #[], modern := false, cd := {} },
+      some false, none, false⟩],
+   ⟨{ vocab := Vocab.build id [], ns := ['s', ':'], attrs := #[], mods := [], unitClasses := #[], modern := false, cd := {} },
+      some false, none, false⟩,
+   rfl, by decide, by decide, by decide, by decide⟩
+
+end GroupValidate
 
 end HedVerif.C13
